@@ -80,8 +80,30 @@ impl Drop for Restore {
 fn run(case: &mut Case) -> Result<Outcome, String> {
     let k = 1 + case.src.usize_below(16);
     let long = case.src.below(2) == 1;
-    let n = if long { 201 + case.src.usize_below(case.tier.pick(20_000, 100_000)) } else { case.src.usize_below(201) };
+    // long vectors: usually a few thousand elements, one time in three 2e4 .. 1.5e6 (log-uniform): an implementation may
+    // switch strategy (blocks, a sequential fallback, another partition) at any size
+    let very_long = long && case.src.below(3) == 0;
+    let n = if very_long {
+        (2e4 * (75.0f64).powf(case.src.f64_in(0.0, 1.0))) as usize
+    } else if long {
+        201 + case.src.usize_below(case.tier.pick(20_000, 100_000))
+    } else {
+        case.src.usize_below(201)
+    };
     let kind = case.src.below(3);
+    // data of long vectors come from a splitmix64 sequence seeded by two stream values (a pure function of the stream;
+    // drawing a million values from the stream itself would exhaust it)
+    let mut sm: u64 = ((case.src.raw() as u64) << 32) | case.src.raw() as u64;
+    let mut next = move || -> u64 {
+        sm = sm.wrapping_add(0x9E3779B97F4A7C15);
+        let mut z = sm;
+        z = (z ^ (z >> 30)).wrapping_mul(0xBF58476D1CE4E5B9);
+        z = (z ^ (z >> 27)).wrapping_mul(0x94D049BB133111EB);
+        z ^ (z >> 31)
+    };
+    if very_long {
+        case.class("very long (2e4 .. 1.5e6 elements)");
+    }
     let all = allowed();
     if k > all.len() {
         case.class(format!("not covered: {} workers requested, {} CPUs available", k, all.len()));
@@ -113,8 +135,13 @@ fn run(case: &mut Case) -> Result<Outcome, String> {
     match kind {
         0 => {
             // integer-valued data: every partial sum is exact, so any association gives the same bits
-            let xi: Vec<f64> = (0..n).map(|_| case.src.small_int(1000) as f64).collect();
-            let yi: Vec<f64> = (0..n).map(|_| case.src.small_int(1000) as f64).collect();
+            let (xi, yi): (Vec<f64>, Vec<f64>) = if long {
+                let a: Vec<f64> = (0..n).map(|_| (next() % 2001) as f64 - 1000.0).collect();
+                let b: Vec<f64> = (0..n).map(|_| (next() % 2001) as f64 - 1000.0).collect();
+                (a, b)
+            } else {
+                ((0..n).map(|_| case.src.small_int(1000) as f64).collect(), (0..n).map(|_| case.src.small_int(1000) as f64).collect())
+            };
             let exact: i128 = xi.iter().zip(&yi).map(|(a, b)| (*a as i128) * (*b as i128)).sum();
             // the same integers at other (exact power-of-two) scales: every product and partial sum stays exact,
             // also when the products are subnormal (e1 + e2 down to -1060) or huge
@@ -163,8 +190,16 @@ fn run(case: &mut Case) -> Result<Outcome, String> {
             }
         }
         1 => {
-            let x: Vec<f64> = (0..n).map(|_| crate::gen::f64_log(&mut case.src, -5.0, 5.0)).collect();
-            let y: Vec<f64> = (0..n).map(|_| crate::gen::f64_log(&mut case.src, -5.0, 5.0)).collect();
+            let mut lg = || -> f64 {
+                let u = (next() >> 11) as f64 / (1u64 << 53) as f64;
+                let m = 10f64.powf(-5.0 + 10.0 * u);
+                if next() & 1 == 0 { m } else { -m }
+            };
+            let (x, y): (Vec<f64>, Vec<f64>) = if long {
+                ((0..n).map(|_| lg()).collect(), (0..n).map(|_| lg()).collect())
+            } else {
+                ((0..n).map(|_| crate::gen::f64_log(&mut case.src, -5.0, 5.0)).collect(), (0..n).map(|_| crate::gen::f64_log(&mut case.src, -5.0, 5.0)).collect())
+            };
             case.describe(|| format!("workers={} n={} random data x[..4]={:?}", k, n, &x[..n.min(4)]));
             let (vx, vy) = (Vector::create(x.clone()), Vector::create(y.clone()));
             let got = match catch(|| vx.dot_f64(&vy)) {
@@ -181,8 +216,12 @@ fn run(case: &mut Case) -> Result<Outcome, String> {
             // cancellation-prone data: repeated calls under load and with a moving CPU set must be bit-identical
             start_spinners();
             let _load = Load::on();
-            let x: Vec<f64> = (0..n).map(|i| if i % 2 == 0 { 1e15 + case.src.f64_in(0.0, 1e3) } else { -1e15 + case.src.f64_in(0.0, 1e3) }).collect();
-            let y: Vec<f64> = (0..n).map(|_| case.src.f64_in(0.5, 1.5)).collect();
+            let mut un = |lo: f64, hi: f64| -> f64 { lo + (hi - lo) * ((next() >> 11) as f64 / (1u64 << 53) as f64) };
+            let (x, y): (Vec<f64>, Vec<f64>) = if long {
+                ((0..n).map(|i| if i % 2 == 0 { 1e15 + un(0.0, 1e3) } else { -1e15 + un(0.0, 1e3) }).collect(), (0..n).map(|_| un(0.5, 1.5)).collect())
+            } else {
+                ((0..n).map(|i| if i % 2 == 0 { 1e15 + case.src.f64_in(0.0, 1e3) } else { -1e15 + case.src.f64_in(0.0, 1e3) }).collect(), (0..n).map(|_| case.src.f64_in(0.5, 1.5)).collect())
+            };
             case.describe(|| format!("workers={} n={} cancellation-prone data, repeated calls", k, n));
             let (vx, vy) = (Vector::create(x), Vector::create(y));
             let first = match catch(|| vx.dot_f64(&vy)) {
@@ -211,7 +250,7 @@ impl Prop for C16 {
         "C16"
     }
     fn rule(&self) -> String {
-        "stream prefix (workers k in 1..=16, short/long, length, data kind): all 16 x 201 combinations of k and length 0..=200 are enumerated in every run for the exact-integer data kind (and for the other two kinds over all lengths <= 17 plus a stride in the quick tier, all lengths in the thorough tier), plus random lengths up to 20000 (thorough 100000); \
+        "stream prefix (workers k in 1..=16, short/long, length, data kind): all 16 x 201 combinations of k and length 0..=200 are enumerated in every run for the exact-integer data kind (and for the other two kinds over all lengths <= 17 plus a stride in the quick tier, all lengths in the thorough tier), plus random lengths up to 20000 (thorough 100000) and, one long case in three, 2e4 .. 1.5e6 (log-uniform; data of long vectors from a splitmix64 sequence seeded by the stream); \
          the calling thread is restricted with sched_setaffinity to a k-CPU subset and num_cpus::get() is observed in-process (k not granted by the environment => counted as not covered). \
          Data kinds: integer-valued data whose partial sums are exact, one third of it scaled by exact powers of two 2^-530..2^450 per vector so that products may be subnormal or huge (dot_f64 bit-identical to dot and to an exact i128 dot product; also for the aliased call v.dot_f64(&v)), random data of magnitude 1e-5..1e5 (|dot_f64 - dot| <= 2(n+1) eps sum|x_i y_i|), \
          cancellation-prone data (+-1e15 alternating) called 5 to 21 times while spinner threads load the CPUs and the CPU set (same size) moves between calls: all results bit-identical. \
